@@ -231,19 +231,23 @@ def parseDate (s : Bytes) : Date :=
     if t.valid then t else Date.zero
   else Date.zero
 
+/-- an hour/minute `time.Time` as produced by `time.Parse("1504", …)` (year 0, so never the zero
+`time.Time`), or Go's zero `time.Time` (`z = true`), which is what a failed parse leaves behind -/
 structure HM where
   h : Nat
   m : Nat
+  z : Bool := false
 deriving DecidableEq, Repr, Inhabited
 
-def HM.zero : HM := ⟨0, 0⟩
+def HM.zero : HM := ⟨0, 0, true⟩
+def HM.isZero (t : HM) : Bool := t.z
 def HM.valid (t : HM) : Bool := t.h ≤ 23 && t.m ≤ 59
 /-- `formatSimpleTime` -/
 def fmtTime (t : HM) : Bytes := digitsW 2 t.h ++ digitsW 2 t.m
 /-- `parseSimpleTime` -/
 def parseTime (s : Bytes) : HM :=
   if s.length == 4 && s.all isDigit then
-    let t : HM := ⟨digitsVal (s.take 2), digitsVal (s.drop 2)⟩
+    let t : HM := ⟨digitsVal (s.take 2), digitsVal (s.drop 2), false⟩
     if t.valid then t else HM.zero
   else HM.zero
 
